@@ -86,7 +86,11 @@ class World(object):
                 rec(k["_j"])
                 return Unconvertible()
             cf = (lambda f, jj: (lambda *a, **k: f(*a, _j=jj)))(cf, j)
-            for name, fn in (("ok", ok), ("raise", rs), ("typeerr", te), ("badarity", ba), ("convfail", cf)):
+            def rf(*a, **k):
+                rec(k["_j"])
+                return jsonrpclib.Fault(-32050, "user fault")        # its own Fault, built with the default Config
+            rf = (lambda f, jj: (lambda *a, **k: f(*a, _j=jj)))(rf, j)
+            for name, fn in (("ok", ok), ("raise", rs), ("typeerr", te), ("badarity", ba), ("convfail", cf), ("retfault", rf)):
                 self.d.register_function(fn, "%s_%d" % (name, j))
 
         class Sub(object):
@@ -118,11 +122,14 @@ class World(object):
             raise RuntimeError("custom boom")
         if isinstance(method, str) and method.startswith("convfail"):
             return Unconvertible()
+        if isinstance(method, str) and method.startswith("retfault"):
+            return jsonrpclib.Fault(-32050, "user fault")
         return ["custom", j]
 
 
 def method_name(mc, j, rnd):
     return {"ok": "ok_%d", "raise": "raise_%d", "typeerr": "typeerr_%d", "badarity": "badarity_%d", "convfail": "convfail_%d",
+            "retfault": "retfault_%d",
             "unknown": rnd.choice(["nope_%d", "ok_%d.x", "Ok_%d", "sub_%d", "méthode_%d", "system.listMethods_%d"]),
             "inst_pub": "pub_%d", "inst_nested": "sub.meth_%d",
             "inst_priv": rnd.choice(["_priv_%d", "__class___%d"]),
@@ -133,7 +140,8 @@ def classify_method(name, world, dk="default"):
     """Semantic class of a method-name string against the registry (mirror of funcs lookup + resolve_dotted_attribute);
     under the harness' custom dispatch function the name prefix decides."""
     if dk == "custom":
-        return "raise" if name.startswith("raise") else "convfail" if name.startswith("convfail") else "ok"
+        return ("raise" if name.startswith("raise") else "convfail" if name.startswith("convfail")
+                else "retfault" if name.startswith("retfault") else "ok")
     if name in world.d.funcs:
         return name.rsplit("_", 1)[0]
     parts = name.split(".")
@@ -361,7 +369,7 @@ def gen_enum(cases, rnd, k):
 
 
 def random_entry_class(rnd):
-    mcs = ["absent", "nonstr", "empty", "ok", "ok", "raise", "typeerr", "badarity", "convfail", "unknown", "inst_pub", "inst_nested",
+    mcs = ["absent", "nonstr", "empty", "ok", "ok", "raise", "typeerr", "badarity", "convfail", "retfault", "unknown", "inst_pub", "inst_nested",
            "inst_priv", "inst_nested_priv"]
     return {"obj": rnd.random() < 0.9, "jr": rnd.random() < 0.7, "idc": rnd.choice(["absent", "null", "empty", "other", "other", "other"]),
             "mc": rnd.choice(mcs), "pc": rnd.choice(["absent", "container", "container", "container", "other"])}
